@@ -91,6 +91,10 @@ func c01Batch(cfg Cfg, thorough bool) []c01Case {
 		maxLen = 4
 	}
 	seqs := seqsUpTo(alpha, maxLen)
+	if !thorough && !cfg.JSON && cfg.ReqMode == memhttp.ReqEager && cfg.HTTP == 2 && cfg.Comp == CompDefault {
+		// one message above the 8 MiB recycle cap at each position of a length-2 sequence
+		seqs = append(seqs, []string{"G+", "z"}, []string{"a", "G+"})
+	}
 	if thorough {
 		// threshold shapes at every position of length-3 sequences
 		for _, th := range []string{"t-", "t", "t+"} {
@@ -178,7 +182,7 @@ func newC01Env(cfg Cfg) *c01Env {
 		}
 		return nil
 	}, cfg.HandlerOptions()...)
-	env.tr = &memhttp.Transport{Handler: h, Proto: cfg.HTTP, ReqMode: cfg.ReqMode, SyncCloseReq: true}
+	env.tr = &memhttp.Transport{Handler: h, Proto: cfg.HTTP, ReqMode: cfg.ReqMode, SyncCloseReq: true, MutateURL: true}
 	env.cl = NewClient(env.tr, cfg)
 	return env
 }
@@ -244,6 +248,10 @@ func c01Check(c *ev.Collector, env *c01Env, k c01Case) {
 		return
 	}
 	ok := true
+	if ex := env.tr.Last(); ex != nil && ex.URL != BaseURL+Procedure {
+		ok = false
+		viol("request-pristine", "url", "the request of this call was sent to %q, the client was built for %q (state of an earlier call leaked into it)", ex.URL, BaseURL+Procedure)
+	}
 	if !equalMsgs(run.handlerGot, reqs) {
 		ok = false
 		viol("handler-recv-seq", "mismatch", "handler received %s, client sent %s", shortMsgs(run.handlerGot), shortMsgs(reqs))
@@ -357,7 +365,7 @@ func c01Real(c *ev.Collector) {
 func TestC01(t *testing.T) {
 	c := ev.New("C01")
 	defer func() { _ = c.Finish() }()
-	c.SetRule("operation-sequence exploration: every configuration {connect,grpc,grpcweb}x{proto,json}x{default,sendgzip,sendmin,custom}x{unary,client,server,bidi}x{h1,h2}x{eager,lazy request window}; per configuration one shared Client/Handler pair runs every message sequence of the bounded alphabet (see bounds); a case is non-trivial when it carries at least one message; distinct = distinct (configuration, request shapes, response shapes)")
+	c.SetRule("operation-sequence exploration: every configuration {connect,grpc,grpcweb}x{proto,json}x{default,sendgzip,sendmin,custom}x{unary,client,server,bidi}x{h1,h2}x{eager,lazy request window}; per configuration one shared Client/Handler pair runs every message sequence of the bounded alphabet (see bounds); plus messages with nested sub-messages (structpb.Struct), fresh and re-sent after an in-place update, echoed through unary and bidi calls; a case is non-trivial when it carries at least one message; distinct = distinct (configuration, request shapes, response shapes)")
 	c.Assume("in-memory HTTP environment memhttp is a legal net/http stand-in (DESIGN 2.3)", "payload codec (proto/protojson) is not under test", "deterministic LIFO poisoned pool replaces sync.Pool in the instrumented build")
 	thorough := ev.Thorough()
 	if rf := ev.ReplayFile(); rf != "" {
@@ -405,6 +413,7 @@ func TestC01(t *testing.T) {
 			c.Sample(map[string]any{"cfg": cfg.String(), "cases": len(batch), "first": fmt.Sprint(batch[min(5, len(batch)-1)])})
 		}
 	}
+	c01Nested(t, c)
 	if thorough {
 		c01Real(c)
 	}
